@@ -273,6 +273,10 @@ func handleWHO(c *Client, e Event) {
 		realname = e.Last()
 	} else {
 		// Assume RPL_WHOREPLY.
+		if len(e.Params) < 7 {
+			return
+		}
+
 		// format: "<client> <channel> <user> <host> <server> <nick> <H|G>[*][@|+] :<hopcount> <real_name>"
 		ident, host, nick, realname = e.Params[2], e.Params[3], e.Params[5], e.Last()
 
